@@ -1172,6 +1172,11 @@ func main() {
 		nbig = r.N(36, 360)
 	}
 	vh.Parallel(nbig, 16, func(i int) { bigReferrers(r, i) })
+	if focus == "C05" {
+		nto := r.N(54, 540)
+		vh.Parallel(nto, 16, func(i int) { tagOrderTrial(r, i) })
+		r.Require("tag_order_trials", int64(nto*3/4))
+	}
 	if focus == "C06" {
 		nt := r.N(24, 360)
 		vh.Parallel(nt, 12, func(i int) { tickSequence(r, i) })
